@@ -311,6 +311,34 @@ prop("C08",
      note="trusts memcheck's taint propagation; checks the shipped object code, not an instrumented recompilation",
      design_ref="DESIGN.md#c08")
 
+
+# ----------------------------------------------------------------------------- C09 (buffer contract)
+VG_EXACT = [x for x in VG if not x.startswith("--partial-loads-ok")] + ["--partial-loads-ok=no"]
+
+def c09_units(tier):
+    return [Unit("c09-memcheck", "c09.cpp", SHIPPED, cases=scale(tier, 350, 6000), shards=8 if tier == "quick" else 16, wrapper=VG_EXACT, args=["--mode", "vg"], timeout=3000),
+            Unit("c09-native", "c09.cpp", SHIPPED, cases=scale(tier, 4000, 100000), shards=4 if tier == "quick" else 16, args=["--mode", "native"]),
+            asan_unit("c09-asan", "c09.cpp", scale(tier, 1500, 40000), args=["--mode", "native", "--heap", "1"], shards=4 if tier == "quick" else 16)]
+
+prop("C09",
+     units=c09_units,
+     level="exploration",
+     rule=("valid call programs over all object kinds and back ends with every pointer argument (key, tweak, counter, input, "
+           "output, Mantis tweak array) at an independent offset 0..63 from a 64-byte aligned base, key / tweak / counter lengths "
+           "over their whole legal range, data sizes from gchunk, overlap offsets d in [-(bs-1), bs-1] for single-block calls and "
+           "out == in for bulk calls. Unit 1 (inside memcheck, --partial-loads-ok=no): each buffer is an exact window in a NOACCESS "
+           "arena; violation = any invalid read/write report during a call, or an output byte left undefined. Units 2/3 (native, "
+           "and ASan with exact heap blocks): guard zones intact, inputs unmodified, same outputs at a second alignment, and "
+           "overlapping / in-place == disjoint. Non-trivial = a pointer at an odd offset, a non-zero overlap / in-place, or a size "
+           "leaving a partial vector batch"),
+     assumptions=BUILD_ASSUME + ["memcheck addressability is byte-exact on both sides of every window (positive controls run at start-up)",
+                                 "UBSan's alignment check is off: unaligned word access is the documented SKINNY_UNALIGNED assumption on x86"],
+     technique="rapidcheck-generated placements under a memcheck NOACCESS arena + metamorphic alignment/overlap relations + ASan",
+     text=("Generated placements, lengths and overlaps; a byte-exact monitor (memcheck) decides extents on the shipped binary, "
+           "metamorphic relations decide alignment- and overlap-independence. Sampling of placements and sizes, not proof."),
+     note="trusts memcheck addressability tracking and ASan",
+     design_ref="DESIGN.md#c09")
+
 # ----------------------------------------------------------------------------- generic entry points
 def run(pid, tier, seed, replay):
     p = PROPS[pid]
